@@ -73,6 +73,7 @@ type call struct {
 	gen     int
 	toks    []xml.Token
 	eof     bool
+	val     *hdr // the stanza value the handler was handed (type, id, to, from)
 }
 
 type marker struct {
@@ -117,16 +118,24 @@ func (m marker) HandleXMPP(t xmlstream.TokenReadEncoder, start *xml.StartElement
 }
 func (m marker) HandleIQ(iq stanza.IQ, t xmlstream.TokenReadEncoder, start *xml.StartElement) error {
 	err := m.read(t)
-	if start != nil && len(m.rec.calls) > 0 {
-		m.rec.calls[len(m.rec.calls)-1].payload = start.Name
+	if len(m.rec.calls) > 0 {
+		cl := &m.rec.calls[len(m.rec.calls)-1]
+		if start != nil {
+			cl.payload = start.Name
+		}
+		cl.val = &hdr{string(iq.Type), iq.ID, iq.To.String(), iq.From.String()}
 	}
 	return err
 }
 func (m marker) HandleMessage(msg stanza.Message, t xmlstream.TokenReadEncoder) error {
-	return m.read(t)
+	err := m.read(t)
+	m.rec.calls[len(m.rec.calls)-1].val = &hdr{string(msg.Type), msg.ID, msg.To.String(), msg.From.String()}
+	return err
 }
 func (m marker) HandlePresence(p stanza.Presence, t xmlstream.TokenReadEncoder) error {
-	return m.read(t)
+	err := m.read(t)
+	m.rec.calls[len(m.rec.calls)-1].val = &hdr{string(p.Type), p.ID, p.To.String(), p.From.String()}
+	return err
 }
 
 func optionOf(m marker) mux.Option {
@@ -342,6 +351,11 @@ func (c *ctx) lookup(ps []Pat, kind, typ string, n xml.Name, class string) {
 	if got == nil {
 		r.Fail("most-specific", "nil-handler", lines, "lookup returned a nil handler")
 	}
+	if kind != "t" && ok != (gp != nil) {
+		// the second result says whether a registered handler was found
+		obs += "/ok=" + common.B(ok)
+		r.Fail("most-specific", "ok-flag/"+kind, lines, fmt.Sprintf("the lookup returned ok=%v with the handler %s", ok, obs))
+	}
 	r.Line(line, obs)
 	want := best(ps, kind, typ, n)
 	r.Case(line, want != nil, fmt.Sprintf("%s/lookup-%s/%v", class, kind, want != nil))
@@ -465,22 +479,26 @@ func fallbackReply(out []xml.Token) (hdr, bool) {
 	if !ok || iq.Name.Local != "iq" {
 		return hdr{}, false
 	}
-	depth, errs, conds := 0, 0, 0
+	// exactly one error element of type cancel with the condition service-unavailable; whatever
+	// else a reply may legally carry (the request's payload, a text, an application condition) is
+	// tolerated
+	depth, errs, conds, inErr := 0, 0, 0, false
 	for i, t := range out {
 		switch tt := t.(type) {
 		case xml.StartElement:
 			switch {
-			case depth == 0 && i == 0:
-			case depth == 1 && tt.Name.Local == "error" && specHdr("i", tt.Attr).typ == "cancel":
+			case depth == 1 && tt.Name.Local == "error":
 				errs++
-			case depth == 2 && tt.Name == (xml.Name{Space: "urn:ietf:params:xml:ns:xmpp-stanzas", Local: "service-unavailable"}):
+				inErr = specHdr("i", tt.Attr).typ == "cancel"
+			case depth == 2 && inErr && tt.Name == (xml.Name{Space: "urn:ietf:params:xml:ns:xmpp-stanzas", Local: "service-unavailable"}):
 				conds++
-			case depth < 3:
-				return hdr{}, false
 			}
 			depth++
 		case xml.EndElement:
 			depth--
+			if depth == 1 {
+				inErr = false
+			}
 			if depth == 0 && i != len(out)-1 {
 				return hdr{}, false
 			}
@@ -664,7 +682,12 @@ func (c *ctx) dispatch(ps []Pat, stanzaXML string, cons []int, errs []int, mode 
 			fail("encoder", "handler-writes", fmt.Sprintf("the %d invoked handlers each wrote a token to their encoder, the encoder of HandleXMPP received those of %v", len(rec.calls), wroteOrds))
 		}
 	}
+	wantVal := specHdr(kind, st.Attr)
 	for i, cl := range rec.calls {
+		// the stanza value handed to the handler is the stanza's own header
+		if cl.val != nil && *cl.val != wantVal {
+			fail("full-stanza", "stanza-value", fmt.Sprintf("call %d was handed the stanza value %+v, the stanza's own attributes say %+v", i, *cl.val, wantVal))
+		}
 		if cl.pat != *want[i] {
 			fail("most-specific", "child-handler", fmt.Sprintf("call %d went to %s, want %s", i, cl.pat.Enc(), want[i].Enc()))
 		}
@@ -829,6 +852,9 @@ func (c *ctx) iqDirectX(ps []Pat, sx string, cons int, framing, class string) {
 		wantToks := inTok[1:]
 		if cons < len(wantToks) {
 			wantToks = wantToks[:cons]
+		}
+		if v := rec.calls[0].val; v != nil && *v != req {
+			r.Fail("full-stanza", "stanza-value", lines, fmt.Sprintf("the handler was handed the IQ value %+v, the stanza's own attributes say %+v", *v, req))
 		}
 		if rec.calls[0].payload != ps0.Name {
 			r.Fail("full-stanza", "iq-payload-start", lines, fmt.Sprintf("the handler was given the start element %v, the payload is %v", rec.calls[0].payload, ps0.Name))
@@ -2078,6 +2104,11 @@ func Facts(repo string) (string, error) {
 	}
 	for _, a := range probeAttrs {
 		for _, b := range probeAttrs {
+			// (two unqualified attributes of one name are not well-formed XML: which one counts is
+			// the implementation's business)
+			if a.Name.Space == "" && b.Name.Space == "" && a.Name.Local == b.Name.Local {
+				continue
+			}
 			lists = append(lists, []xml.Attr{a, b})
 		}
 	}
@@ -2096,7 +2127,7 @@ func Facts(repo string) (string, error) {
 	ok = true
 	for _, kind := range []string{"i", "m", "p"} {
 		local := map[string]string{"i": "iq", "m": "message", "p": "presence"}[kind]
-		for _, as := range lists {
+		for li, as := range lists {
 			var seen []hdr
 			pn := common.Recover(func() {
 				var opts []mux.Option
@@ -2124,7 +2155,9 @@ func Facts(repo string) (string, error) {
 				name := xml.Name{Space: c08.NSClient, Local: local}
 				start := xml.StartElement{Name: name, Attr: append([]xml.Attr(nil), as...)}
 				toks := []xml.Token{xml.EndElement{Name: name}}
-				if kind == "i" {
+				if kind == "i" || li%2 == 1 {
+					// IQs carry a payload; every second message / presence has a child, so that both the
+					// per-child path and the empty-stanza path of forChildren are probed
 					toks = []xml.Token{xml.StartElement{Name: q}, xml.EndElement{Name: q}, xml.EndElement{Name: name}}
 				}
 				_ = m.HandleXMPP(&framedReader{toks: toks, framing: "sep"}, &start)
